@@ -458,6 +458,28 @@ Definition after_failed_append (s : st) (clk : Z) : st :=
 Definition after_failed_creates (s : st) (clk : Z) (n : N) : st :=
   mkSt (s_dir s) (s_idx s) (s_stats s) (s_active s) (s_written s) (s_last s + n) true clk.
 
+(* ---------- a failed fsync (C20; theorems in Store/FaultFsync.v) ----------
+   With sync=always the fsync that follows the append of a set or delete fails: the operation returns the error, the
+   record is complete in the active file, the index is not touched.  [fixed = true]: the code after repair 6ff1d59
+   books the record as dead data of its file (so the file has a row); [fixed = false]: the pinned code returned
+   before any bookkeeping. *)
+Definition failed_fsync (fixed : bool) (s : st) (k : bytes) (v : option bytes) : res (st * list syscall) :=
+  let pre := if s_stale s then new_active s else ROk (s, []) in
+  match pre with
+  | RFail e => RFail e | RPanicked e => RPanicked e
+  | ROk (s1, t1) =>
+    let e := mkEntry (s_clock s1) k v in
+    match append_data (s_dir s1) (s_active s1) e with
+    | None => RFail ENotFound
+    | Some (d2, _) =>
+      let len := entry_size e in
+      let stats2 := if fixed then aset (s_stats s1) (s_active s1) (add_dead (sget0 (s_stats s1) (s_active s1)) len) else s_stats s1 in
+      let written := if fixed then s_written s1 + len else s_written s1 in
+      ROk (mkSt d2 (s_idx s1) stats2 (s_active s1) written (s_last s1) false (s_clock s1 + 1)%Z,
+           t1 ++ [SWrite (FData (s_active s1)) (enc_entry e)])
+    end
+  end.
+
 (* ---------- scripts ---------- *)
 Inductive op :=
 | OSet (k v : bytes) | OGet (k : bytes) | ODel (k : bytes) | OMerge (ord : list bytes) | OReopen | OClock (t : Z).
